@@ -33,10 +33,10 @@ Inductive const :=
                                              kind = "type" | "module" | "dataclass:<f1,f2>" | "namedtuple:<..>" | "enum" | "other" … *)
 
 Inductive uop := UNot | USub | UAdd | UInvert.
-Inductive bop := Add | Sub | Mult | Div | FloorDiv | Mod | Pow
-               | LShift | RShift | BitOr | BitXor | BitAnd | MatMult.
+Inductive bop := BAdd | BSub | BMult | BDiv | BFloorDiv | BMod | BPow
+               | BLShift | BRShift | BBitOr | BBitXor | BBitAnd | BMatMult.
 Inductive boolop := And | Or.
-Inductive cmpop := Eq | NotEq | Lt | LtE | Gt | GtE | Is | IsNot | In | NotIn.
+Inductive cmpop := CEq | CNotEq | CLt | CLtE | CGt | CGtE | CIs | CIsNot | CIn | CNotIn.
 
 Inductive expr :=
  | Name (id : string)
@@ -84,9 +84,9 @@ Definition uop_eqb (a b : uop) : bool :=
 
 Definition bop_eqb (a b : bop) : bool :=
   match a, b with
-  | Add,Add | Sub,Sub | Mult,Mult | Div,Div | FloorDiv,FloorDiv | Mod,Mod | Pow,Pow
-  | LShift,LShift | RShift,RShift | BitOr,BitOr | BitXor,BitXor | BitAnd,BitAnd
-  | MatMult,MatMult => true
+  | BAdd,BAdd | BSub,BSub | BMult,BMult | BDiv,BDiv | BFloorDiv,BFloorDiv | BMod,BMod | BPow,BPow
+  | BLShift,BLShift | BRShift,BRShift | BBitOr,BBitOr | BBitXor,BBitXor | BBitAnd,BBitAnd
+  | BMatMult,BMatMult => true
   | _,_ => false end.
 
 Definition boolop_eqb (a b : boolop) : bool :=
@@ -94,8 +94,8 @@ Definition boolop_eqb (a b : boolop) : bool :=
 
 Definition cmpop_eqb (a b : cmpop) : bool :=
   match a, b with
-  | Eq,Eq | NotEq,NotEq | Lt,Lt | LtE,LtE | Gt,Gt | GtE,GtE | Is,Is | IsNot,IsNot
-  | In,In | NotIn,NotIn => true
+  | CEq,CEq | CNotEq,CNotEq | CLt,CLt | CLtE,CLtE | CGt,CGt | CGtE,CGtE | CIs,CIs | CIsNot,CIsNot
+  | CIn,CIn | CNotIn,CNotIn => true
   | _,_ => false end.
 
 Definition const_eqb (a b : const) : bool :=
